@@ -1,7 +1,7 @@
 (* C02 - every operation of the alphabet preserves the invariant (inside the
    domain recorded by the ghost flag). *)
 From Coq Require Import List Arith Bool PeanoNat Lia.
-From QV Require Import C02.Model C02.Lists C02.Inv C02.Inv2 C02.Inv3 C02.Inv4 C02.Struct C02.Steps.
+From QV Require Import C02.Model C02.Lists C02.Inv C02.Inv2 C02.Inv3 C02.Inv4 C02.Inv5 C02.Struct C02.Steps.
 Import ListNotations.
 
 Lemma ifb_some : forall (b : bool) {A} (x : option A) y, ifb b x = Some y -> b = true /\ x = Some y.
@@ -203,6 +203,9 @@ Proof.
     apply ifb_some in E as [Hn E]. inv_some E. split.
     + unfold okm, kill; cbn; auto.
     + intros H _. apply kill_good; auto.
+  - (* RemoveAll *)
+    apply ifb_some in E as [Hn E]. inv_some E.
+    apply from_st; [apply st_remove_all|]. intros H _. apply remove_all_good; auto.
 Qed.
 
 (* ------------------------------------------------------------------ *)
